@@ -3,7 +3,10 @@ CLAIMS["C08"] = dict(
     technique="explicit-state exploration of attribute-list pairs (types, orders, duplicates, allow-lists, key storage shapes) and of Record/Collect histories under small and default "
               "cardinality limits on the real series tables and storages against std::map / set-accounting reference models (bounded list length and history depth)",
     text="(a) c08_attrs: every pair of single-key lists over 47 typed values covering every AttributeValue alternative; every pair of lists of <= 3 and <= 2 (thorough <= 3) entries over "
-         "keys {a,b,c} x 3 values (all orders, duplicates last-wins); keys with an embedded NUL or a common prefix; each with no filter and every allow-list, keys stored "
+         "keys {a,b,c} x 3 values (all orders, duplicates last-wins); keys with an embedded NUL or a common prefix; all pairs of 13 ways to build the empty attribute set "
+         "(default-constructed MetricAttributes{}, empty iterable, empty initializer list, lists filtered to empty; must be equal, hash equally, share one table entry) and every sequence of "
+         "<= 3 records mixing the attribute-less overloads with empty-container / filtered-to-empty / kept attribute sets over two cycles on SyncMetricStorage and on Meter counters and "
+         "histograms with delta and cumulative collectors (one series per filtered set carrying the exact total); each with no filter and every allow-list, keys stored "
          "NUL-terminated / as a slice of a longer buffer / in an exact-size heap block (ASan), caller buffers overwritten after the call; on the real FilteredOrderedAttributeMap, "
          "its hash, FilteringAttributesProcessor (constructor path, process(), isPresent), AttributesHashMap, SyncMetricStorage and MeterProvider + View: equal-as-maps <=> same "
          "series (three-valued: int32/int64/uint of the same number, +0.0/-0.0, integral double vs integer, empty arrays of different element types are don't-care), equal => equal hash, "
